@@ -152,6 +152,20 @@ def correspondence(ctx):
             ctx.count("ctor mass-error cases")
             ctx.case(("mass", tuple(sh), delta), nontrivial=delta != 0.0,
                      sample={"op": "ctor", "shape": sh, "mass_error": delta})
+    # ProbDist.__getitem__ (prob_dist.py): tuple access on non-square shapes, every multi-index
+    from quara.objects.prob_dist import ProbDist
+    for sh in ([2, 3], [3, 2], [2, 1], [2, 2, 3], [3, 1, 2]):
+        n = int(np.prod(sh))
+        vals = (np.arange(1, n + 1) / (n * (n + 1) / 2)).astype(float)
+        pd = ProbDist(vals.copy(), tuple(sh))
+        for mi in itertools.product(*[range(x) for x in sh]):
+            try:
+                impl = "ok " + q(float(pd[tuple(mi)]))
+            except Exception as e:  # noqa
+                impl = "err index"
+            pend.append(("pdget", (sh, list(mi)), impl, drv.ask("pdget", qlist(vals), ilist(sh), ilist(mi))))
+            ctx.case(("pdget", tuple(sh), mi), sample={"op": "ProbDist[tuple]", "shape": sh, "idx": list(mi)})
+        ctx.count("ProbDist shapes")
     # error branches
     bad = [
         ("ctor-neg", lambda: MultinomialDistribution(np.array([-0.5, 1.5]), (2,)), ("ctor", "-1/2,3/2", "2", EPS8)),
@@ -177,7 +191,7 @@ def correspondence(ctx):
     out = drv.run()
     for op, inp, impl, i in pend:
         ctx.corr_ops.add(op)
-        if op in ("multi", "serial"):
+        if op in ("multi", "serial", "pdget"):
             if out[i] != impl:
                 ctx.disagree(op, inp, impl, out[i])
         else:
@@ -275,6 +289,8 @@ def oracle(ctx, volume=1):
                     # tuple access agrees with the serial layout
     ensembles(ctx, volume)
     projective_ensembles(ctx)
+    prob_dist_access(ctx)
+    ensemble_products(ctx)
 
 
 def ensembles(ctx, volume=1):
@@ -330,6 +346,101 @@ def ensembles(ctx, volume=1):
         if not ok:
             ctx.violate("C16/ensemble/layout", f"ensemble of {m1}- then {m2}-outcome measurement: states/probabilities not laid out as (earlier, later) "
                         f"(reported shapes {tuple(e1.prob_dist.shape)}, {tuple(e2.prob_dist.shape)})", rep)
+
+
+def prob_dist_access(ctx):
+    """ProbDist[(i, j, ...)] == ps.reshape(shape)[i, j, ...] == ps[row-major serial]; int access; error branches"""
+    from quara.objects.prob_dist import ProbDist
+    g = ctx.npgen(7)
+    for sh in ([2, 3], [3, 2], [2, 1], [1, 3], [2, 2, 3], [3, 2, 2], [2, 3, 4], [2, 1, 3, 2]):
+        n = int(np.prod(sh))
+        ps = g.dirichlet(np.ones(n))
+        pd = ProbDist(ps.copy(), tuple(sh))
+        rep = {"kind": "probdist", "shape": sh, "ps": ps.tolist()}
+        bad = None
+        for mi in itertools.product(*[range(x) for x in sh]):
+            try:
+                v = pd[tuple(mi)]
+                if not (np.ndim(v) == 0 and float(v) == ps[int(np.ravel_multi_index(mi, sh))] and pd[int(np.ravel_multi_index(mi, sh))] == float(v)):
+                    bad = f"ProbDist{tuple(sh)}[{mi}] is not the row-major entry"
+            except Exception as e:  # noqa
+                bad = f"ProbDist{tuple(sh)}[{mi}] raises {type(e).__name__}"
+            if bad:
+                break
+        ctx.case(("probdist", tuple(sh)), sample={"op": "ProbDist", "shape": sh})
+        if bad:
+            ctx.violate("C16/ProbDist/getitem/layout", bad, rep)
+    for idx, exc in ((0.5, TypeError), ("a", TypeError)):
+        try:
+            ProbDist(np.array([0.5, 0.5]), (2,))[idx]
+            ctx.violate("C16/ProbDist/getitem/accepts-bad-index", f"index {idx!r} accepted", {"kind": "probdist-err"})
+        except exc:
+            pass
+        except Exception as e:  # noqa
+            ctx.violate("C16/ProbDist/getitem/accepts-bad-index", f"index {idx!r} raises {type(e).__name__}", {"kind": "probdist-err"})
+    try:
+        ProbDist(np.array([0.5, 0.5]))[(0,)]
+        ctx.violate("C16/ProbDist/getitem/shapeless-tuple", "tuple access without a shape accepted", {"kind": "probdist-err"})
+    except ValueError:
+        pass
+
+
+def ensemble_products(ctx):
+    """(a) tensor product of two measurement-produced ensembles with different member counts; (b) a POVM pre-composed with a
+    measurement process: the joint distribution is laid out (measurement outcome, POVM outcome), row-major"""
+    import qobj
+    from quara.objects.operators import compose_qoperations, tensor_product
+    g = ctx.npgen(8)
+    for t in range(2 if ctx.quick else 6):
+        m1, m2 = [(2, 3), (3, 2), (4, 2), (2, 4), (3, 4), (2, 2)][t % 6]
+        c1, c2 = qobj.csys("qubit", (0,)), qobj.csys("qubit", (1,))
+        M1, K1 = qobj.rand_mprocess(g, c1, m1)
+        M2, K2 = qobj.rand_mprocess(g, c2, m2)
+        r1, r2 = qobj.rand_density(g, 2), qobj.rand_density(g, 2)
+        rep = {"kind": "ensemble-product", "seed": ctx.seed, "t": t, "m": [m1, m2]}
+        ok = True
+        try:
+            e1 = compose_qoperations(M1, qobj.State(c1, qobj.vec_of(c1, r1)))
+            e2 = compose_qoperations(M2, qobj.State(c2, qobj.vec_of(c2, r2)))
+            e = tensor_product(e1, e2)
+            ok = tuple(e.prob_dist.shape) == (m1, m2)
+            for i in range(m1):
+                a = K1[i][0] @ r1 @ K1[i][0].conj().T
+                for j in range(m2):
+                    b = K2[j][0] @ r2 @ K2[j][0].conj().T
+                    pa, pb = np.trace(a).real, np.trace(b).real
+                    ok = ok and abs(e.prob_dist[(i, j)] - pa * pb) < 1e-9
+                    ok = ok and np.allclose(e.state((i, j)).to_density_matrix(), np.kron(a / pa, b / pb), atol=1e-8)
+            ok = ok and np.allclose(e.prob_dist.marginalize([0]).ps, e1.prob_dist.ps, atol=1e-9) \
+                and np.allclose(e.prob_dist.marginalize([1]).ps, e2.prob_dist.ps, atol=1e-9)
+        except Exception as ex:  # noqa
+            ok = False
+        ctx.case(("ens-prod", t, m1, m2), sample={"op": "ensemble (x) ensemble", "members": [m1, m2]})
+        if not ok:
+            ctx.violate("C16/ensemble/tensor-product/layout", f"tensor product of a {m1}- and a {m2}-member ensemble: states / probabilities are not at "
+                        "their own multi-index (i, j)", rep)
+        # (b) pre-composed Heisenberg POVM
+        c = qobj.csys("qubit", (0,))
+        mM, mP = m1, m2
+        M, K = qobj.rand_mprocess(g, c, mM)
+        E = qobj.rand_povm_mats(g, 2, mP)
+        povm = qobj.Povm(c, [qobj.vec_of(c, x) for x in E])
+        rho = qobj.rand_density(g, 2)
+        st = qobj.State(c, qobj.vec_of(c, rho))
+        rep2 = {"kind": "povm-mprocess", "seed": ctx.seed, "t": t, "m": [mM, mP]}
+        ok = True
+        try:
+            pre = compose_qoperations(compose_qoperations(povm, M), st)
+            seq = compose_qoperations(povm, compose_qoperations(M, st))
+            joint = np.array([[np.trace(E[k] @ K[i][0] @ rho @ K[i][0].conj().T).real for k in range(mP)] for i in range(mM)])
+            ok = np.allclose(np.asarray(pre.ps).reshape(mM, mP), joint, atol=1e-9) and tuple(seq.shape) == (mM, mP) \
+                and np.allclose(np.asarray(seq.ps).reshape(mM, mP), joint, atol=1e-9)
+        except Exception as ex:  # noqa
+            ok = False
+        ctx.case(("povm-mp", t, mM, mP), sample={"op": "(povm . mprocess) . state", "outcomes": [mM, mP]})
+        if not ok:
+            ctx.violate("C16/povm-mprocess/joint-layout", f"POVM ({mP} outcomes) pre-composed with a {mM}-outcome measurement process: the joint "
+                        "distribution is not the row-major (measurement outcome, POVM outcome) layout", rep2)
 
 
 def projective_ensembles(ctx):
